@@ -799,6 +799,21 @@ func (g *generator) enterNextFinallyFrame() (canContinue bool, ex *Exception) {
 	return
 }
 
+// leaveReturnFinally is called when an exception has stopped at the try frame of a finally block that was entered
+// by return() (see enterNextFinallyFrame): the pending return is abandoned and the exception continues to the
+// enclosing try statements of the generator. It returns nil if one of them handles it.
+func (g *generator) leaveReturnFinally(ex *Exception) *Exception {
+	vm := g.vm
+	if g.returning != nil && len(vm.tryStack) > int(g.tryStackLen) {
+		if tf := &vm.tryStack[len(vm.tryStack)-1]; tf.catchPos == tryPanicMarker && tf.finallyRet == -2 {
+			vm.popTryFrame()
+			g.returning = nil
+			return vm.handleThrow(ex)
+		}
+	}
+	return ex
+}
+
 func (g *generator) step() (res Value, resultType resultType, ex *Exception) {
 	vm := g.vm
 	if g.returning == nil {
@@ -816,10 +831,10 @@ func (g *generator) step() (res Value, resultType resultType, ex *Exception) {
 		for {
 			ex = vm.runTryInner()
 			if ex != nil {
-				if vm.prg != nil || vm.pc != -2 {
-					// The exception was thrown in the outermost finally block, it never got to leaveFinally
-					// which does popTryFrame()
-					vm.popTryFrame()
+				// The exception was thrown in a finally block entered by return(), it never got to leaveFinally
+				if ex = g.leaveReturnFinally(ex); ex == nil && g.returning == nil {
+					// caught by an enclosing try statement of the generator: carry on normally
+					return g.step()
 				}
 				return
 			}
@@ -890,6 +905,9 @@ func (g *generator) next(v Value) (Value, resultType, *Exception) {
 func (g *generator) nextThrow(v interface{}) (Value, resultType, *Exception) {
 	g.enterNext()
 	ex := g.vm.handleThrow(v)
+	if ex != nil {
+		ex = g.leaveReturnFinally(ex)
+	}
 	if ex != nil {
 		g.vm.popTryFrame()
 		g.vm.popCtx()
